@@ -94,7 +94,7 @@ def run_case(case, ctx):
         sh = Shadow(lambda: CUSUMModel(**kw), lambda m: ("raise" if m.raises else m.state))
         tag = "CUSUM:%s" % direction
     else:
-        burn = int(rng.choice([1, 2, 3, 5, 10, 30]))
+        burn = int(rng.choice([0, 1, 2, 3, 5, 10, 30]))
         delta = float(rng.choice([0.0, 0.01, 0.1, 0.5]))
         thr = float(rng.choice([0.05, 0.2, 0.5, 1, 2, 5, 20]))
         direction = ["positive", "negative"][int(rng.integers(0, 2))]
@@ -149,6 +149,10 @@ def present(x, typed, i):
 
 def drive(det, d, sh, kw, xs, known, tag, ctx, typed=None):
     alarms = 0
+    # how the caller reads the Page-Hinkley table: after every update, only when an alarm was raised (and one call later), or now and then
+    poll = ("every", "at_alarm", "sparse")[len(xs) % 3] if det == "PH" else "every"
+    ctx.count("ph_poll_mode:" + poll) if det == "PH" else None
+    after_alarm = False
     for i, x in enumerate(xs):
         try:
             d.update(present(x, typed, i))
@@ -177,7 +181,7 @@ def drive(det, d, sh, kw, xs, known, tag, ctx, typed=None):
         if got == "raise":
             ctx.count("zero_sd_raises")
             break
-        if det == "PH":
+        if det == "PH" and (poll == "every" or (poll == "at_alarm" and (got == "drift" or after_alarm)) or (poll == "sparse" and i % 7 == 3)):
             df = d.to_dataframe()
             if len(df) != m.rows:
                 ctx.violation("C04/PH/dataframe_rows", "update %d: to_dataframe has %d rows, the current epoch has %d observations" % (i, len(df), m.rows),
@@ -199,6 +203,7 @@ def drive(det, d, sh, kw, xs, known, tag, ctx, typed=None):
                                   i, bad, {c: fval(row[c]) for c in bad}, {c: m.row[c] for c in bad}),
                               params=kw, stream=xs[: i + 1], step=i, columns=bad)
                 break
+        after_alarm = got == "drift"
         if got == "drift":
             alarms += 1
             if det == "CUSUM":
